@@ -223,7 +223,23 @@ def _is_req_ack(x):
     return is_call(x, r"TcpPacket::<'a>::get_acknowledgement$") and peel(x[2][0]) == ('param', 1)
 
 
+def _max_only_at_zero(f):
+    """the guarded form `if ack > 0 { ack - 1 } else { 0xFFFFFFFF }`: the constant is chosen only where ack == 0 was established"""
+    mx = []
+    for bi, b in enumerate(f.blocks):
+        if b['cleanup']:
+            continue
+        for st in b['stmts']:
+            if not st['lhs']['p'] and st['rv']['k'] == 'use' and st['rv']['a']['k'] == 'const' and st['rv']['a'].get('val') == 0xFFFFFFFF and st['rv']['a'].get('ty') == 'u32':
+                mx.append(bi)
+    z = value_edges(f, lambda k: _is_req_ack(k), 0)
+    return bool(mx) and bool(z) and not f.must_pass(z, mx)
+
+
 def is_ack_minus_one(f, e):
+    guarded = any(const_val(a) == 0xFFFFFFFF for a in alts(e)) and len(alts(e)) == 2
+    if guarded and not _max_only_at_zero(f):
+        return False
     if is_modsum(e, [_is_req_ack], -1):
         return True
     # ack.checked_sub(1).unwrap_or(0xFFFFFFFF)
